@@ -41,8 +41,10 @@ Record node := mkNode {
 Record centry := mkCE { c_id : nat; c_filter : fexpr; c_tables : list nat }.
 #[global] Instance eta_centry : Settable _ := settable! mkCE <c_id; c_filter; c_tables>.
 
-(** Listener configuration: subscription byte and optional component mask. *)
+(** Listener configuration: subscription byte and optional component mask.  The
+    world's listener is either one callback or a listener.Dispatch over sub-listeners. *)
 Record lcfg := mkL { lc_subs : N; lc_comps : option N }.
+Inductive lstn := LCallback (l : lcfg) | LDispatch (subs : list lcfg).
 
 Record event := mkEv {
   ev_ent : Entity;
@@ -52,6 +54,7 @@ Record event := mkEv {
   ev_oldtarget : Entity;
   ev_types : N;
   ev_locked : bool;            (* world locked while the event is delivered *)
+  ev_to : nat;                 (* index of the (sub-)listener that receives it *)
 }.
 
 (** One archetype range of a query.  [s_skip] is "table Len() == 0" at open time. *)
@@ -83,7 +86,7 @@ Record world := mkWorld {
   w_cnext : nat;                        (* next filter id (ids are never recycled) *)
   w_res : list (option Z);              (* resources by id *)
   w_resreg : list nat;                  (* resource registry (type keys) *)
-  w_listener : option lcfg;
+  w_listener : option lstn;
   w_capinc : nat;
   w_relcapinc : nat;
   w_tb : nat;                           (* MaskTotalBits *)
